@@ -473,3 +473,214 @@ Proof.
   - rewrite E. unfold apply_d at 1 2. rewrite get_set_sec by exact Hs. rewrite set_set_sec. reflexivity.
   - subst ds. cbn [fold_left]. unfold apply_d, step_sec. reflexivity.
 Qed.
+
+(* ---------- questions ---------- *)
+Definition QReads (w : list Z) (off : nat) (n' : name) (ty cl : Z) (end_ : nat) : Prop :=
+  (end_ <= length w)%nat /\ (off < end_)%nat /\
+  forall ext, exists c1 : nat,
+    (c1 + 4 = end_)%nat /\
+    nm_from_wire (w ++ ext) (length (w ++ ext)) off = Ok (n', c1) /\
+    rd_u16 (w ++ ext) (length (w ++ ext)) c1 = Ok ty /\
+    rd_u16 (w ++ ext) (length (w ++ ext)) (c1 + 2) = Ok cl.
+
+Lemma QReads_app w more off n' ty cl end_ : QReads w off n' ty cl end_ -> QReads (w ++ more) off n' ty cl end_.
+Proof.
+  intros (A & B & C). split; [rewrite app_length; lia|]. split; [exact B|].
+  intros ext. rewrite <- app_assoc. apply C.
+Qed.
+
+Lemma q_em_read n ty cl file t em t' :
+  TableSound file t -> name_ok n -> q_em None n ty cl (zlen file) t = Ok (em, t') ->
+  TableSound (file ++ em) t' /\
+  exists n', ci_equal n' n /\ name_ok n' /\ QReads (file ++ em) (length file) n' ty cl (length (file ++ em)).
+Proof.
+  intros TS NO H. unfold q_em in H.
+  apply bind_ok in H. destruct H as ([e1 t1] & H1 & H).
+  apply bind_ok in H. destruct H as (h1 & E1 & H). apply bind_ok in H. destruct H as (h2 & E2 & H).
+  cbn [fst snd] in H. injection H as <- <-.
+  apply pack16_ok in E1, E2. destruct E1 as (-> & R1). destruct E2 as (-> & R2).
+  destruct (nm_em_sound _ _ _ _ _ _ TS NO H1) as (TS1 & n' & CI1 & NO1 & D1).
+  split.
+  { rewrite app_assoc. apply TableSound_app. exact TS1. }
+  exists n'. split; [exact CI1|]. split; [exact NO1|].
+  pose proof (Dec_bounds _ _ _ _ _ D1) as (B1 & B2 & B3).
+  split; [lia|]. split; [rewrite !app_length in *; cbn [length MessageM.u16]; lia|].
+  intros ext. exists (length (file ++ e1)).
+  split; [rewrite !app_length; cbn [length MessageM.u16]; lia|].
+  replace ((file ++ e1 ++ MessageM.u16 ty ++ MessageM.u16 cl) ++ ext)
+    with ((file ++ e1) ++ (MessageM.u16 ty ++ MessageM.u16 cl ++ ext)) by (rewrite <- !app_assoc; reflexivity).
+  split.
+  - apply nm_read; [exact NO1|exact D1|]. rewrite !app_length. lia.
+  - split.
+    + rewrite rd_u16_at; [reflexivity|lia|]. rewrite !app_length. cbn [length MessageM.u16]. lia.
+    + replace ((file ++ e1) ++ MessageM.u16 ty ++ MessageM.u16 cl ++ ext)
+        with (((file ++ e1) ++ MessageM.u16 ty) ++ MessageM.u16 cl ++ ext) by (rewrite <- !app_assoc; reflexivity).
+      replace (length (file ++ e1) + 2)%nat with (length ((file ++ e1) ++ MessageM.u16 ty)) by (rewrite app_length; reflexivity).
+      rewrite rd_u16_at; [reflexivity|lia|]. rewrite !app_length. cbn [length MessageM.u16]. lia.
+Qed.
+
+Record qd := mkQ { q_name : name; q_ty : Z; q_cl : Z }.
+
+Inductive QChain (w : list Z) : nat -> list qd -> nat -> Prop :=
+| qc_nil off : (off <= length w)%nat -> QChain w off [] off
+| qc_cons off q mid qs end_ :
+    QReads w off (q_name q) (q_ty q) (q_cl q) mid -> QChain w mid qs end_ -> QChain w off (q :: qs) end_.
+
+Lemma QChain_app_w w more off qs end_ : QChain w off qs end_ -> QChain (w ++ more) off qs end_.
+Proof.
+  induction 1.
+  - constructor. rewrite app_length. lia.
+  - econstructor; [apply QReads_app; eassumption|assumption].
+Qed.
+
+Lemma QChain_end w off qs end_ : QChain w off qs end_ -> (off <= end_ <= length w)%nat.
+Proof. induction 1; [lia|]. destruct H as (A & B & _). lia. Qed.
+
+Definition add_q (m : msg) (q : qd) : msg :=
+  set_sec m 0 (mq m ++ [mkRR (q_name q) (q_cl q) (q_ty q) 0 None 0 []]).
+
+Lemma get_question_chain w ext : forall qs off end_ m,
+  QChain w off qs end_ ->
+  get_question (w ++ ext) None false (length qs) off m = Ok (end_, fold_left add_q qs m).
+Proof.
+  induction qs as [|q qs IH]; intros off end_ m C.
+  - inversion C; subst. reflexivity.
+  - inversion C as [|? ? mid ? ? R C']; subst. cbn [length get_question].
+    destruct R as (_ & _ & R). destruct (R ext) as (c1 & Hc & Hn & Ht & Hcl).
+    unfold get_name. rewrite Hn. cbn [bind fst snd]. rewrite Ht, Hcl. cbn [bind].
+    unfold parse_rr_header. cbn [negb bind].
+    replace (c1 + 4)%nat with mid by lia.
+    rewrite (IH mid end_ _ C'). reflexivity.
+Qed.
+
+Definition q_desc (rs : rrset) (q : qd) : Prop :=
+  ci_equal (q_name q) (rname rs) /\ name_ok (q_name q) /\ q_ty q = rtype rs /\ q_cl q = rclass rs.
+
+Lemma add_questions_chain : forall l r r' file,
+  zlen file = zlen (out r) -> TableSound file (tbl r) -> TblBelow r ->
+  Forall (fun rs => name_ok (rname rs)) l ->
+  add_questions None l r = Ok (false, r') ->
+  exists em qs,
+    out r' = out r ++ em /\ TableSound (file ++ em) (tbl r') /\ TblBelow r' /\
+    QChain (file ++ em) (length file) qs (length (file ++ em)) /\ Forall2 q_desc l qs /\
+    cq r' = cq r + zlen qs /\ can r' = can r /\ cau r' = cau r /\ cad r' = cad r /\
+    rflags r' = rflags r /\ maxsz r' = maxsz r /\ reserved r' = reserved r /\ padded r' = padded r.
+Proof.
+  induction l as [|rs l IH]; intros r r' file Hz TS TB WF H.
+  - injection H as <-. exists [], []. rewrite !app_nil_r.
+    split; [reflexivity|]. split; [exact TS|]. split; [exact TB|].
+    split; [constructor; lia|]. split; [constructor|].
+    change (zlen (@nil qd)) with 0. repeat split; lia.
+  - cbn [add_questions] in H. apply bind_ok in H. destruct H as ([b1 r1] & H1 & H). cbn [fst snd] in H.
+    destruct b1; [discriminate|]. inversion WF as [|? ? W1 WF']; subst.
+    rewrite add_question_tracked in H1.
+    destruct (tracked_spec _ _ _ _ _ _ (ext_q_em _ _ _ _) TB H1) as (Hs & em1 & new & HE & F & [(_ & Hfit & ->)|(Hb & _)]);
+      [|discriminate].
+    rewrite <- Hz in HE.
+    destruct (q_em_read _ _ _ file (tbl r) em1 _ TS W1 HE) as (TS1 & n' & CI & NO' & QR).
+    set (r1 := inc_count (set_out (set_rsec r 0) (out r ++ em1) (tbl r ++ new)) 0 1) in *.
+    assert (Hz1 : zlen (file ++ em1) = zlen (out r1)).
+    { unfold r1. cbn [out inc_count set_out]. rewrite !zlen_app'. lia. }
+    assert (TB1 : TblBelow r1).
+    { unfold TblBelow, r1. cbn [out tbl inc_count set_out].
+      rewrite zlen_app'. apply Forall_app. split.
+      - eapply Forall_impl; [|exact TB]. cbn beta. intros kv Hk. pose proof (zlen_nn em1). nlia.
+      - eapply Forall_impl; [|exact F]. cbn beta. intros kv (Hk & _). nlia. }
+    destruct (IH r1 r' (file ++ em1) Hz1 TS1 TB1 WF' H) as (em2 & qs & O2 & TS2 & TB2 & CH2 & QD & C0 & C1 & C2 & C3 & FL & MX & RV & PD).
+    exists (em1 ++ em2), (mkQ n' (rtype rs) (rclass rs) :: qs).
+    rewrite <- app_assoc in TS2, CH2.
+    split; [rewrite O2; unfold r1; cbn [out inc_count set_out]; rewrite <- app_assoc; reflexivity|].
+    split; [exact TS2|]. split; [exact TB2|].
+    split.
+    { econstructor; [|exact CH2]. cbn [q_name q_ty q_cl]. rewrite app_assoc. apply QReads_app. exact QR. }
+    split; [constructor; [unfold q_desc; cbn [q_name q_ty q_cl]; auto|exact QD]|].
+    unfold r1 in *. cbn [cq can cau cad rflags maxsz reserved padded inc_count set_out set_rsec Z.eqb] in *.
+    rewrite zlen_cons'. repeat split; try assumption; lia.
+Qed.
+
+(* ---------- OPT ---------- *)
+Definition opts_ok (os : list (Z * list Z)) : Prop :=
+  Forall (fun cd => zmem (fst cd) special_options = false) os.
+
+Lemma opts_loop_read : forall os wb pre post fuel acc,
+  opts_wire os = Ok wb -> opts_ok os -> (length wb < fuel)%nat ->
+  opts_loop (pre ++ wb ++ post) fuel (length (pre ++ wb)) (length pre) acc = Ok (rev acc ++ os).
+Proof.
+  induction os as [|[code data] os IH]; intros wb pre post fuel acc H OK Hf.
+  - injection H as <-. destruct fuel; [lia|]. cbn [opts_loop]. rewrite app_nil_r, Nat.leb_refl.
+    rewrite app_nil_r. reflexivity.
+  - cbn [opts_wire] in H. apply bind_ok in H. destruct H as (h1 & E1 & H). apply bind_ok in H. destruct H as (h2 & E2 & H).
+    apply bind_ok in H. destruct H as (rest & E3 & H). injection H as <-.
+    apply pack16_ok in E1, E2. destruct E1 as (-> & R1). destruct E2 as (-> & R2).
+    inversion OK as [|? ? O1 OK']; subst. cbn [fst] in O1.
+    destruct fuel; [lia|]. cbn [opts_loop].
+    set (wb := MessageM.u16 code ++ MessageM.u16 (zlen data) ++ data ++ rest) in *.
+    assert (Hwl : length wb = (4 + length data + length rest)%nat).
+    { unfold wb. rewrite !app_length. cbn [length MessageM.u16]. lia. }
+    destruct (Nat.leb_spec (length (pre ++ wb)) (length pre)); [rewrite app_length in *; lia|].
+    replace (pre ++ wb ++ post) with (pre ++ MessageM.u16 code ++ (MessageM.u16 (zlen data) ++ data ++ rest ++ post))
+      by (unfold wb; rewrite <- !app_assoc; reflexivity).
+    rewrite rd_u16_at by (try lia; rewrite app_length; lia). cbn [bind].
+    replace (pre ++ MessageM.u16 code ++ MessageM.u16 (zlen data) ++ data ++ rest ++ post)
+      with ((pre ++ MessageM.u16 code) ++ MessageM.u16 (zlen data) ++ (data ++ rest ++ post))
+      by (rewrite <- !app_assoc; reflexivity).
+    replace (length pre + 2)%nat with (length (pre ++ MessageM.u16 code)) by (rewrite app_length; reflexivity).
+    rewrite rd_u16_at by (try lia; rewrite !app_length; cbn [length MessageM.u16]; lia). cbn [bind].
+    replace ((pre ++ MessageM.u16 code) ++ MessageM.u16 (zlen data) ++ data ++ rest ++ post)
+      with ((pre ++ MessageM.u16 code ++ MessageM.u16 (zlen data)) ++ data ++ (rest ++ post))
+      by (rewrite <- !app_assoc; reflexivity).
+    replace (length pre + 4)%nat with (length (pre ++ MessageM.u16 code ++ MessageM.u16 (zlen data)))
+      by (rewrite !app_length; cbn [length MessageM.u16]; lia).
+    replace (Z.to_nat (zlen data)) with (length data) by (unfold zlen; rewrite Nat2Z.id; reflexivity).
+    rewrite rd_bytes_at by (rewrite !app_length; cbn [length MessageM.u16]; lia). cbn [bind].
+    rewrite O1.
+    replace ((pre ++ MessageM.u16 code ++ MessageM.u16 (zlen data)) ++ data ++ rest ++ post)
+      with ((pre ++ MessageM.u16 code ++ MessageM.u16 (zlen data) ++ data) ++ rest ++ post)
+      by (rewrite <- !app_assoc; reflexivity).
+    replace (length (pre ++ MessageM.u16 code ++ MessageM.u16 (zlen data)) + length data)%nat
+      with (length (pre ++ MessageM.u16 code ++ MessageM.u16 (zlen data) ++ data))
+      by (rewrite !app_length; lia).
+    replace (length (pre ++ wb)) with (length ((pre ++ MessageM.u16 code ++ MessageM.u16 (zlen data) ++ data) ++ rest))
+      by (unfold wb; rewrite <- !app_assoc; reflexivity).
+    rewrite (IH rest _ post fuel _ E3 OK') by lia.
+    cbn [rev]. rewrite <- app_assoc. reflexivity.
+Qed.
+
+Lemma ci_root n : ci_equal n [[]] -> n = [[]].
+Proof.
+  unfold ci_equal. destruct n as [|l [|l2 n]]; cbn; intros H; try discriminate.
+  injection H as H. destruct l; [reflexivity|discriminate].
+Qed.
+
+Lemma get_rr_opt w off owner' cl ttl wb os end_ ext count i fu m :
+  RRreads w off owner' tOPT cl ttl [FRest] [PB wb] end_ -> ci_equal owner' [[]] ->
+  opts_wire os = Ok wb -> opts_ok os -> mopt m = None ->
+  get_rr (w ++ ext) None po0 false 3 count i off fu m = Ok (end_, fu, set_opt m (mkOpt ttl cl os)).
+Proof.
+  intros (c1 & rdl & A & B & C & D & E) CI HW OK HM.
+  destruct (E ext) as (EH & ED). apply ci_root in CI. subst owner'.
+  unfold get_rr. rewrite EH. cbn [bind]. cbn [Z.eqb Pos.eqb tOPT orb].
+  unfold parse_special_rr_header. cbn [Z.eqb Pos.eqb tOPT negb orb]. rewrite HM.
+  change (name_eqb [[]] [[]]) with true. cbn [negb orb bind].
+  rewrite Nat2Z.id.
+  destruct (Nat.ltb_spec (length (w ++ ext) - (c1 + 10)) rdl); [rewrite app_length in *; lia|].
+  (* the octets of the rdata *)
+  specialize (ED []). cbn [dec_fields] in ED. apply bind_ok in ED. destruct ED as (b & Hb & ED).
+  cbn [rev app] in ED. injection ED as ->.
+  unfold rd_bytes in Hb. destruct (Nat.ltb (end_ - (c1 + 10)) (end_ - (c1 + 10))); [discriminate|].
+  injection Hb as Hb. replace (end_ - (c1 + 10))%nat with rdl in Hb by lia.
+  set (wire := w ++ ext) in *.
+  assert (Hlen : (c1 + 10 + rdl <= length wire)%nat) by (unfold wire; rewrite app_length; lia).
+  remember (firstn (c1 + 10) wire) as pre eqn:Epre.
+  remember (skipn rdl (skipn (c1 + 10) wire)) as post eqn:Epost.
+  assert (Hw : wire = pre ++ wb ++ post).
+  { subst pre post. rewrite <- Hb. rewrite firstn_skipn. rewrite firstn_skipn. reflexivity. }
+  assert (Hp : length pre = (c1 + 10)%nat) by (subst pre; rewrite firstn_length; lia).
+  assert (Hwb : length wb = rdl) by (rewrite <- Hb, firstn_length, skipn_length; lia).
+  change (tOPT =? tOPT) with true. cbv iota.
+  replace (opts_loop wire (S rdl) (c1 + 10 + rdl) (c1 + 10) [])
+    with (opts_loop (pre ++ wb ++ post) (S rdl) (length (pre ++ wb)) (length pre) [])
+    by (rewrite app_length, Hp, Hwb, <- Hw; reflexivity).
+  rewrite (opts_loop_read os wb pre post (S rdl) [] HW OK) by lia. cbn [bind rev app].
+  rewrite A. reflexivity.
+Qed.
